@@ -346,24 +346,13 @@ def classify(case: Case, opts: dict) -> str:
 
 
 def classify_default(case: Case) -> str:
-    d = case.default
-    if d is NO_DEFAULT:
+    """class of a default that is an entry of the enum w.r.t. the known defects of the default → member step
+    (computed from the input and the escape table only, see c09_defaults.default_trigger)"""
+    from . import c09_defaults
+
+    if case.default is NO_DEFAULT:
         return "none"
-    if not d:
-        return "falsy_default"
-    if py_equal_groups([v for v in case.values if v is not None]):
-        return "py_equal_values"
-    if None in case.values and case.ty == "string":
-        return "nullable_wrapper"
-    strs = [str(v) for v in case.values if v is not None]
-    table = str.maketrans(enum_table())
-    if isinstance(d, str) and (d.strip("'\"") != d or d.translate(table) != d):
-        return "quote_or_escape"
-    if any(isinstance(v, str) and (v.strip("'\"") != v) for v in case.values):
-        return "quote_or_escape"
-    if len(set(strs)) != len(strs):
-        return "str_equal_other_type"
-    return "none"
+    return c09_defaults.default_trigger(case.ty, case.values, case.default)
 
 
 def e2e_case(ck: Check, camp, case: Case, cfg: Cfg, model: str, opts: dict) -> None:
@@ -571,7 +560,12 @@ def known_findings(ck: Check) -> None:
         probe = Check(ck.prop, ck.tier)
         probe.findings = []
         camp = probe.campaign("witness")
-        e2e_case(probe, camp, case_of(w), cfg_of(w), w["model"], w.get("opts", {}))
+        if "dkind" in w:
+            from . import c09_defaults
+
+            c09_defaults.check_dcase(probe, camp, w)
+        else:
+            e2e_case(probe, camp, case_of(w), cfg_of(w), w["model"], w.get("opts", {}))
         if probe.failures:
             ck.known(f["id"], f["what"])
 
@@ -619,7 +613,12 @@ def run(ck: Check) -> None:
     campaign_literal(ck, 300 if quick else 3000)
     campaign_e2e(ck, 700 if quick else 7000)
     campaign_observation(ck)
+    from . import c09_defaults
+
+    c09_defaults.campaign_steps(ck, 400 if quick else 4000)
+    c09_defaults.campaign_defaults(ck, 260 if quick else 2600)
     ck.search_hooks.append(search_enums)
+    ck.search_hooks.append(c09_defaults.search_defaults)
     known_findings(ck)
 
 
@@ -627,7 +626,11 @@ def replay(ck: Check, path: str) -> int:
     data = json.loads(open(path).read())
     inp = data.get("input") or {}
     camp = ck.campaign("replay")
-    if "enum" in inp and "model" in inp:
+    if "dkind" in inp:
+        from . import c09_defaults
+
+        c09_defaults.check_dcase(ck, camp, inp)
+    elif "enum" in inp and "model" in inp:
         e2e_case(ck, camp, case_of(inp), cfg_of(inp), inp["model"], inp.get("opts", {}))
     for f in ck.failures:
         print("REPLAY-FAILS:", json.dumps(f.classification), f.observed[:300])
